@@ -9,12 +9,16 @@ package logger
 //@ global elogger: elogger != nil
 //@
 //@ func Errorf(format, a) (err)
-//@   effects log
+//@   effects log, warn
+//@   ensures {C14,C05} $warn.n == old($warn.n) + 2 && $warn.sink[old($warn.n)] == logger && $warn.sink[old($warn.n)+1] == elogger
 //@   ensures {C14,C03} err != nil && errmsg(err) == sprintf(format, a)
+// C05: a warning goes to both loggers, the error logger (stderr unless silenced) last, with the formatted text.
 //@ func Warnf(format, a)
-//@   effects log
+//@   effects log, warn
+//@   ensures {C05} $warn.n == old($warn.n) + 2 && $warn.sink[old($warn.n)] == logger && $warn.sink[old($warn.n)+1] == elogger
+//@   ensures {C05} $warn.text[old($warn.n)] == sprintf(format, a) && $warn.text[old($warn.n)+1] == sprintf(format, a)
 //@ func Printf(format, a)
-//@   effects log
+//@   effects log, warn
 
 // ---- sinks (C05, C18) ------------------------------------------------------------------------------------------------------------
 // The options are function values; each may write the option record it is given and nothing else (ASSUMED of
